@@ -170,10 +170,9 @@ theorem movedSafeT_of_nonneg (k : Int) (read : List Iv) (pos : Int)
         omega
 
 /-- the natural domain of the property: annotation and read at non-negative coordinates before and after the shift,
-    well-formed exons lying beyond the reach of the `detect_reference_exons_*` thresholds, sorted disjoint read blocks,
-    polyA / polyT positions absent or non-negative -/
-structure Genomic (k : Int) (ms : List Isoform) (p : Params) (blocks : List Iv) (pa : PolyA) : Prop where
-  exons : ∀ m ∈ ms, ∀ e ∈ m.exons, 0 ≤ e.1 ∧ e.1 ≤ e.2 ∧ 0 ≤ e.1 + k ∧ sentinelReach p ≤ e.1 ∧ sentinelReach p ≤ e.1 + k
+    well-formed exons, sorted disjoint read blocks, polyA / polyT positions absent or non-negative -/
+structure Genomic (k : Int) (ms : List Isoform) (blocks : List Iv) (pa : PolyA) : Prop where
+  exons : ∀ m ∈ ms, ∀ e ∈ m.exons, 0 ≤ e.1 ∧ e.1 ≤ e.2 ∧ 0 ≤ e.1 + k
   readBlocks : ∀ b ∈ blocks, 0 ≤ b.1 ∧ b.1 ≤ b.2 ∧ 0 ≤ b.1 + k
   readSorted : blocks.Pairwise (fun a b => a.2 < b.1)
   polya : ∀ x ∈ [pa.extA, pa.extT, pa.intA, pa.intT], x = -1 ∨ (0 ≤ x ∧ 0 ≤ x + k)
@@ -184,8 +183,8 @@ theorem safePos_of_nonneg (k x : Int) (h : x = -1 ∨ (0 ≤ x ∧ 0 ≤ x + k))
   · exact absurd h hne
   · omega
 
-theorem noSentinel_of_genomic (k : Int) (ms : List Isoform) (p : Params) (blocks : List Iv) (pa : PolyA)
-    (h : Genomic k ms p blocks pa) : NoSentinel k ms p blocks pa := by
+theorem noSentinel_of_genomic (k : Int) (ms : List Isoform) (blocks : List Iv) (pa : PolyA)
+    (h : Genomic k ms blocks pa) : NoSentinel k ms blocks pa := by
   have hA := h.polya pa.extA (by simp)
   have hT := h.polya pa.extT (by simp)
   have hIA := h.polya pa.intA (by simp)
@@ -196,23 +195,15 @@ theorem noSentinel_of_genomic (k : Int) (ms : List Isoform) (p : Params) (blocks
     omega
   · intro m hm _
     refine ⟨safePos_of_nonneg k _ hA, safePos_of_nonneg k _ hIA, ?_, movedSafeA_of_nonneg k blocks _ h.readBlocks hA,
-      movedSafeA_of_nonneg k blocks _ h.readBlocks hIA, Or.inr ?_⟩
-    · intro e he
-      have := h.exons m hm e (List.mem_of_getLast? he)
-      omega
-    · intro e he
-      have := h.exons m hm e he
-      simp only [iabs]
-      omega
+      movedSafeA_of_nonneg k blocks _ h.readBlocks hIA⟩
+    intro e he
+    have := h.exons m hm e (List.mem_of_getLast? he)
+    omega
   · intro m hm _
     refine ⟨safePos_of_nonneg k _ hT, safePos_of_nonneg k _ hIT, ?_, movedSafeT_of_nonneg k blocks _ h.readBlocks h.readSorted hT,
-      movedSafeT_of_nonneg k blocks _ h.readBlocks h.readSorted hIT, Or.inr ?_⟩
-    · intro e he
-      have := h.exons m hm e (List.mem_of_head? he)
-      omega
-    · intro e he
-      have := h.exons m hm e he
-      simp only [iabs]
-      omega
+      movedSafeT_of_nonneg k blocks _ h.readBlocks h.readSorted hIT⟩
+    intro e he
+    have := h.exons m hm e (List.mem_of_head? he)
+    omega
 
 end IsoVerif.Lemmas.C11.AssignShift
